@@ -1,4 +1,4 @@
-use easy_error::{ensure, err_msg, Error, ResultExt};
+use easy_error::{ensure, Error, ResultExt};
 use futures::TryFutureExt;
 use milu::{
     parser::parse,
@@ -84,12 +84,15 @@ pub struct AccessLog {
 impl AccessLog {
     pub async fn init(&mut self) -> Result<(), Error> {
         let path = self.path.to_owned();
-        drop(log_open(&path).await?);
+        // opened here, where a failure is a start-up error to report; the log task has nothing
+        // left that can fail before its first record
+        let file = log_open(&path).await?;
         let (tx, rx) = channel(100);
         self.tx = Some(tx.clone());
         let format = self.format.create()?;
         tokio::spawn(
-            log_thread(format, rx, path).unwrap_or_else(|e| panic!("{} cause: {:?}", e, e.cause)),
+            log_thread(format, rx, path, file)
+                .unwrap_or_else(|e| panic!("{} cause: {:?}", e, e.cause)),
         );
         tokio::spawn(signal_watch(tx));
         Ok(())
@@ -128,10 +131,19 @@ async fn log_thread(
     format: Box<dyn Formater>,
     mut rx: Receiver<Option<Arc<ContextProps>>>,
     path: PathBuf,
+    file: File,
 ) -> Result<(), Error> {
-    let mut stream = BufWriter::new(log_open(&path).await?);
+    let mut stream = BufWriter::new(file);
     loop {
-        let e = rx.recv().await.ok_or_else(|| err_msg("dequeue"))?;
+        // every sender is gone: the process is on its way out (end of a configuration test, a
+        // start-up error), there is nothing left to log and nothing to report
+        let e = match rx.recv().await {
+            Some(e) => e,
+            None => {
+                let _ = stream.flush().await;
+                return Ok(());
+            }
+        };
         if let Some(e) = e {
             // a record the format script cannot render (an error that depends on the request) is skipped:
             // it must not end the log task, whose failure ends the process
